@@ -20,6 +20,7 @@
      Cancel s       the context of a parked sender's call is cancelled (no effect in this code)
      Fault          the sink's next Write will fail
      Deploy         HandleDeploy on the live operator while no call is outstanding
+     TimeoutFail    like Timeout, but the user handler fails on that flush: the batch is lost and the operator stops
    handleCheckpointBarrier holds o.mu for its whole run and alignSender runs under o.mu.RLock, so a
    Gate never interleaves inside a barrier's Handle; the other handlers do not touch o.checkpoint. *)
 From Coq Require Import List NArith Bool Arith.
@@ -99,6 +100,10 @@ Definition set_timers (t : list (N * N)) (x : dat) : dat :=
   mkDat (batch x) (btoken x) (armed x) (inflight x) (wms x) (wm x) t (applied x) (log x) (active x) (sinkfault x).
 (* processEventBatch returned the sink's error between x and x' *)
 Definition errored (x x' : dat) : bool := sinkfault x && negb (sinkfault x').
+
+(* the operator has stopped itself (o.stop() after the last active runner's SourceComplete, or processEvents
+   returned the error of a failed time-out flush): represented by an empty active list *)
+Definition stopped (x : dat) : bool := match active x with [] => true | _ :: _ => false end.
 
 (* ---- processEventBatch ---- *)
 (* the recording handler: every entry becomes a put under its own entry key; a keyed event with
@@ -202,7 +207,7 @@ Definition handle_item (c : cfg) (x : st) (s : nat) (it : item) : st :=
   end.
 
 Inductive action := Gate (s : nat) (it : item) | Wake (s : nat) | Handle (s : nat) | TimerFire | Timeout | Cancel (s : nat)
-  | Fault | Deploy.
+  | Fault | Deploy | TimeoutFail.
 
 Definition set_d (x : st) (y : dat) : st := mkSt (modes x) (sent x) (ckpt x) (done x) y.
 
@@ -246,16 +251,35 @@ Definition step (c : cfg) (x : st) (a : action) : option st :=
          store, timer registry, upstreams. The batcher (token, in-flight time-outs) and the sink survive.
          The observation log and the per-sender delivery counts restart: everything is per deployment. *)
       if forallb (fun m => match m with Idle => true | _ => false end) (modes x)
-         && match batch (dt x) with [] => true | _ => false end then
+         && match batch (dt x) with [] => true | _ => false end && negb (stopped (dt x)) then
         let y := dt x in
         Some (mkSt (modes x) (repeat [] (n_senders c)) None (done x)
                    (mkDat [] (btoken y) (armed y) (inflight y) (repeat 0 (n_senders c)) 0 [] [] []
                           (seq 0 (n_senders c)) (sinkfault y)))
       else None
+  | TimeoutFail =>
+      (* the oldest in-flight token reaches the event loop and the user handler fails on that very flush:
+         eventBatcher.Flush(token) has already taken the batch out (its events were acknowledged to their senders
+         and are now lost), ProcessEventBatch returns an error, processEventBatch returns it and processEvents
+         RETURNS: the operator stops (cancel(), Start returns). Represented by active = [] (see stopped): nothing
+         is handled, flushed, checkpointed or redeployed any more. A stale token or an empty batch makes no
+         handler call, so nothing fails. *)
+      if sinkfault (dt x) || stopped (dt x) then None else
+      match inflight (dt x) with
+      | t :: r => let y := dt x in
+          match batch y with
+          | _ :: _ =>
+              if t =? btoken y then
+                Some (set_d x (mkDat [] (btoken y + 1) None r (wms y) (wm y) (timers y) (applied y) (log y) [] (sinkfault y)))
+              else Some (set_d x (mkDat (batch y) (btoken y) (armed y) r (wms y) (wm y) (timers y) (applied y) (log y) (active y) (sinkfault y)))
+          | [] => Some (set_d x (mkDat (batch y) (btoken y) (armed y) r (wms y) (wm y) (timers y) (applied y) (log y) (active y) (sinkfault y)))
+          end
+      | [] => None
+      end
   | Timeout =>
       (* with an armed sink fault the time-out flush would fail and processEvents would return the error, which
-         stops the operator: not part of the schedules considered *)
-      if sinkfault (dt x) then None else
+         stops the operator: not part of the schedules considered (a failing HANDLER on that flush is TimeoutFail) *)
+      if sinkfault (dt x) || stopped (dt x) then None else
       match inflight (dt x) with
       | t :: r => let y := dt x in
           Some (set_d x (flush (Some t) (mkDat (batch y) (btoken y) (armed y) r (wms y) (wm y) (timers y) (applied y) (log y) (active y) (sinkfault y))))
